@@ -18,7 +18,8 @@
  * work[(begin + (phase > 50 ? len - 1 - i : i) + work_len) & (work_len - 1)]: every output tap names the index it was
  * read from.  The two rounded window lengths begin0 / end0 are floating-point expressions of (phase1, len): the harness
  * evaluates the same C expressions and hands them to the model as opaque inputs.
- * --wrap=_soxr_fir_to_phase records the length dft_stage_init hands to the transform (num_taps as designed). */
+ * --wrap=_soxr_fir_to_phase records the length dft_stage_init hands to the transform (num_taps as designed) and what the
+ * transform hands back (length and post_len before dft_stage_init appends its trailing zeros). */
 #include "cr.c"
 #include <stdio.h>
 #include <stdint.h>
@@ -41,12 +42,13 @@ void __wrap__soxr_rdft(int n, int isgn, double * a, int * ip, double * w)
     }
   }
 }
-static int g_tp_calls, g_tp_len_in; static double g_tp_phase;
+static int g_tp_calls, g_tp_len_in, g_tp_len_out, g_tp_post_out; static double g_tp_phase;
 void __real__soxr_fir_to_phase(double * * h, int * len, int * post_len, double phase);
 void __wrap__soxr_fir_to_phase(double * * h, int * len, int * post_len, double phase)
 {
   ++g_tp_calls; g_tp_len_in = *len; g_tp_phase = phase;
   __real__soxr_fir_to_phase(h, len, post_len, phase);
+  g_tp_len_out = *len; g_tp_post_out = *post_len;       /* what the transform returned, before dft_stage_init pads it */
 }
 
 static long decode(double v) { return v > 0? (long)v - 1 : (long)(-v * 0x1p40) - 1; }
@@ -195,11 +197,12 @@ static void mode_dft(int count)
     {
       int raw = set_dft_length(f->num_taps, (int)mn, (int)lg);       /* the real (static) function: its answer before the padding loop */
       printf("D dft_padding %s\n", raw == f->dft_length? "none" : "padded");
+      printf("D dft_tap_padding %s\n", !g_tp_calls? "linear" : g_tp_len_out == f->num_taps? "none" : "zeros-appended");
       printf("> dft lin=%d L=%d M=%d fnEqL=%d fsLe1=%d nRaw=%d tpLen=%d tpPost=%d dftLen=%d\n", phase == 50, L, M, Fn == L, Fs <= 1, nRaw,
-          f->num_taps, f->post_peak, raw);
+          g_tp_calls? g_tp_len_out : f->num_taps, g_tp_calls? g_tp_post_out : f->post_peak, raw);
     }
-    printf("< dft nDesign=%d dftLen=%d numTaps=%d postPeak=%d preload=%d clk=%d step=%d blockLen=%d isz=%d fdok=%d\n", g_tp_calls? g_tp_len_in : f->num_taps,
-        f->dft_length, f->num_taps, f->post_peak, st.preload, st.at.integer, st.step.integer, st.block_len, st.input_size, fdok);
+    printf("< dft nDesign=%d pad=%d dftLen=%d numTaps=%d postPeak=%d preload=%d clk=%d step=%d blockLen=%d isz=%d fdok=%d\n", g_tp_calls? g_tp_len_in : f->num_taps,
+        g_tp_calls? f->num_taps - g_tp_len_out : 0, f->dft_length, f->num_taps, f->post_peak, st.preload, st.at.integer, st.step.integer, st.block_len, st.input_size, fdok);
     if ((phase != 50) != (g_tp_calls == 1)) printf("X transform-calls phase=%g calls=%d\n", phase, g_tp_calls);
     {
       fn_t const * RDFT_CB = _soxr_rdft64_cb;
